@@ -229,11 +229,12 @@ Proof.
     - right. exists pk0. split; [right; exact Hin|exact Hc]. }
   assert (I1 : incl (raw :: srest) (raw :: srest)) by apply incl_refl.
   assert (I2 : incl srest (raw :: srest)) by (apply incl_tl, incl_refl).
-  destruct (split_last raw) as [[sg hb]|] eqn:Esl; [|apply Hk; exact I1].
+  destruct (split_last raw) as [[sg hb]|] eqn:Esl.
+  2:{ destruct (check_pubkey_enc c pk) eqn:Epk; cbn [negb]; [apply Hk; exact I1|].
+      intros _. right. exists pk. split; [left; reflexivity|exact Epk]. }
   cbv zeta.
   assert (Hwp : forall p',
-    (if negb (check_pubkey_enc c pk) then LErr
-     else if negb (orc_parse_pub orc pk) then ms_struct orc t i c script krest p' (raw :: srest)
+    (if negb (orc_parse_pub orc pk) then ms_struct orc t i c script krest p' (raw :: srest)
      else match unparse script with
           | Some up =>
               match sighash_for t i up (b2n hb) with
@@ -251,30 +252,36 @@ Proof.
      (exists raw0 sg0 hb0, In raw0 (raw :: srest) /\ split_last raw0 = Some (sg0, hb0) /\
                          (check_hash_type c (b2n hb0) = false \/ check_sig_enc c sg0 = EncErr)) \/
      (exists pk0, In pk0 (pk :: krest) /\ check_pubkey_enc c pk0 = false)).
-  { intros p'. destruct (check_pubkey_enc c pk) eqn:Epk; cbn [negb].
-    2:{ intros _. right. exists pk. split; [left; reflexivity|exact Epk]. }
-    destruct (negb (orc_parse_pub orc pk)); [apply Hk; exact I1|].
+  { intros p'. destruct (negb (orc_parse_pub orc pk)); [apply Hk; exact I1|].
     destruct (unparse script); [|discriminate].
     destruct (sighash_for t i l (b2n hb)); try discriminate.
     destruct (orc_verify orc pk b sg (uses_der_parser c)) as [[|]|]; [apply Hk; exact I2|apply Hk; exact I1|discriminate]. }
-  destruct m as [[|]|]; [apply Hwp|apply Hk; exact I1|].
-  destruct (check_hash_type c (b2n hb)) eqn:Eht; cbn [negb].
-  2:{ intros _. left. exists raw, sg, hb. split; [left; reflexivity|]. split; [exact Esl|left; exact Eht]. }
-  destruct (check_sig_enc c sg) eqn:Ese; try discriminate.
-  2:{ intros _. left. exists raw, sg, hb. split; [left; reflexivity|]. split; [exact Esl|right; exact Ese]. }
-  destruct (orc_parse_sig orc (uses_der_parser c) sg); [apply Hwp|apply Hk; exact I1].
+  assert (Hpkerr : LErr = LErr ->
+     (exists raw0 sg0 hb0, In raw0 (raw :: srest) /\ split_last raw0 = Some (sg0, hb0) /\
+                         (check_hash_type c (b2n hb0) = false \/ check_sig_enc c sg0 = EncErr)) \/
+     (exists pk0, In pk0 (pk :: krest) /\ check_pubkey_enc c pk0 = false) -> True) by auto.
+  destruct m as [[|]|].
+  - destruct (check_pubkey_enc c pk) eqn:Epk; cbn [negb]; [apply Hwp|].
+    intros _. right. exists pk. split; [left; reflexivity|exact Epk].
+  - destruct (check_pubkey_enc c pk) eqn:Epk; cbn [negb]; [apply Hk; exact I1|].
+    intros _. right. exists pk. split; [left; reflexivity|exact Epk].
+  - destruct (check_hash_type c (b2n hb)) eqn:Eht; cbn [negb].
+    2:{ intros _. left. exists raw, sg, hb. split; [left; reflexivity|]. split; [exact Esl|left; exact Eht]. }
+    destruct (check_sig_enc c sg) eqn:Ese; try discriminate.
+    2:{ intros _. left. exists raw, sg, hb. split; [left; reflexivity|]. split; [exact Esl|right; exact Ese]. }
+    destruct (check_pubkey_enc c pk) eqn:Epk; cbn [negb].
+    2:{ intros _. right. exists pk. split; [left; reflexivity|exact Epk]. }
+    destruct (orc_parse_sig orc (uses_der_parser c) sg); [apply Hwp|apply Hk; exact I1].
 Qed.
-
 
 (** ** the hash-type rule of STRICTENC, as coded, in readable form *)
 Definition base_defined (shf : N) : bool := let b := N.land shf 63 in (1 <=? b)%N && (b <=? 3)%N.
 Definition forkid_bit (shf : N) : bool := N.testbit shf 6.
 
-(** as coded (BIP143 flag off): STRICTENC demands a defined base type, and the FORKID bit only with the
-    FORKID flag.  NOT demanded: the FORKID bit when the FORKID flag is set (the two ErrIllegalForkID
-    tests are unreachable for hash types without the bit) -- reported as a defect. *)
+(** (BIP143 flag off) STRICTENC demands a defined base type, and the FORKID bit exactly when the FORKID
+    flag is set: SCRIPT_ERR_ILLEGAL_FORKID / SCRIPT_ERR_MUST_USE_FORKID of the node *)
 Definition hash_type_rule (strictenc forkid : bool) (shf : N) : bool :=
-  negb strictenc || (base_defined shf && (negb (forkid_bit shf) || forkid)).
+  negb strictenc || (base_defined shf && Bool.eqb (forkid_bit shf) forkid).
 
 Lemma check_hash_type_rule c shf : (shf < 256)%N -> has_flag c F_BIP143 = false ->
   check_hash_type c shf = hash_type_rule (has_flag c F_STRICTENC) (has_flag c F_FORKID) shf.
@@ -284,18 +291,20 @@ Proof.
   destruct (has_flag c F_FORKID).
   - apply (below256 (fun s =>
       Bool.eqb (if false && (N.land s sh_forkid =? 0)%N then false
-       else if negb (flag_has (N.land s 127) sh_forkid) then negb ((N.land s 127 <? sh_all)%N || (sh_single <? N.land s 127)%N)
+       else if negb (flag_has (N.land s 127) sh_forkid)
+            then if (N.land s 127 <? sh_all)%N || (sh_single <? N.land s 127)%N then false
+                 else if true && negb (flag_has s sh_forkid) then false else true
        else if (N.land s 127 <? 65)%N || (67 <? N.land s 127)%N then false
-       else if negb true && flag_has s sh_forkid then false
-       else if true && negb (flag_has s sh_forkid) then false else true)
-      (base_defined s && (negb (forkid_bit s) || true)))) in Hs; [apply eqb_prop; exact Hs|vm_compute; reflexivity].
+       else if negb true && flag_has s sh_forkid then false else true)
+      (base_defined s && Bool.eqb (forkid_bit s) true))) in Hs; [apply eqb_prop; exact Hs|vm_compute; reflexivity].
   - apply (below256 (fun s =>
       Bool.eqb (if false && (N.land s sh_forkid =? 0)%N then false
-       else if negb (flag_has (N.land s 127) sh_forkid) then negb ((N.land s 127 <? sh_all)%N || (sh_single <? N.land s 127)%N)
+       else if negb (flag_has (N.land s 127) sh_forkid)
+            then if (N.land s 127 <? sh_all)%N || (sh_single <? N.land s 127)%N then false
+                 else if false && negb (flag_has s sh_forkid) then false else true
        else if (N.land s 127 <? 65)%N || (67 <? N.land s 127)%N then false
-       else if negb false && flag_has s sh_forkid then false
-       else if false && negb (flag_has s sh_forkid) then false else true)
-      (base_defined s && (negb (forkid_bit s) || false)))) in Hs; [apply eqb_prop; exact Hs|vm_compute; reflexivity].
+       else if negb false && flag_has s sh_forkid then false else true)
+      (base_defined s && Bool.eqb (forkid_bit s) false))) in Hs; [apply eqb_prop; exact Hs|vm_compute; reflexivity].
 Qed.
 
 (** ** what is wrong with a (signature, key) pair, and under which flags that is a hard failure *)
@@ -306,22 +315,20 @@ Inductive defect :=
 | NotStrictDER             (* the bytes before the hash type are not BIP66 strict DER *)
 | HighS                    (* strict DER but S above half the group order *)
 | PubKeyShape              (* key neither 33 bytes starting 02/03 nor 65 bytes starting 04 *)
-| VerifyFails              (* key and signature parse (go-bk), the signature is not the bare hash type, ECDSA says no *)
+| VerifyFails              (* key and signature parse (go-bk), ECDSA says no *)
 | Unparsable.              (* key or signature does not parse (go-bk) *)
 
-(** the flag table AS CODED.  Two rows differ from the reference rules and are reported as defects:
-    [NoForkIdBit] is never a failure (the node: SCRIPT_ERR_MUST_USE_FORKID under the FORKID flag), and
-    [Unparsable] is never a failure (BIP146: under NULLFAIL every failing non-empty signature is). *)
+(** the flag table *)
 Definition hard (c : ctx) (d : defect) : bool :=
   match d with
   | HashTypeUndefined => has_flag c F_STRICTENC
   | ForkIdBit => has_flag c F_STRICTENC && negb (has_flag c F_FORKID)
-  | NoForkIdBit => false
+  | NoForkIdBit => has_flag c F_STRICTENC && has_flag c F_FORKID
   | NotStrictDER => has_flag c F_DERSIG || has_flag c F_LOWS || has_flag c F_STRICTENC
   | HighS => has_flag c F_LOWS
   | PubKeyShape => has_flag c F_STRICTENC
   | VerifyFails => has_flag c F_NULLFAIL
-  | Unparsable => false
+  | Unparsable => has_flag c F_NULLFAIL
   end.
 
 Definition pubkey_shape_ok (pk : bytes) : Prop :=
@@ -339,7 +346,7 @@ Definition has_defect (pk sig : bytes) (shf : N) (h : bytes) (d : defect) : Prop
   | NotStrictDER => ~ strict_der sig
   | HighS => strict_der sig /\ ~ strict_der_low_s sig
   | PubKeyShape => ~ pubkey_shape_ok pk
-  | VerifyFails => sig <> [] /\ orc_parse_pub orc pk = true /\ orc_parse_sig orc (uses_der_parser c) sig = true /\
+  | VerifyFails => orc_parse_pub orc pk = true /\ orc_parse_sig orc (uses_der_parser c) sig = true /\
                    orc_verify orc pk h sig (uses_der_parser c) = Some false
   | Unparsable => orc_parse_pub orc pk = false \/ orc_parse_sig orc (uses_der_parser c) sig = false
   end.
@@ -400,8 +407,9 @@ Proof.
   2:{ split; [reflexivity|]. intros Hn. exfalso. apply Hn. unfold hash_type_rule in Eht.
       destruct (has_flag c F_STRICTENC) eqn:Es; [|discriminate]. cbn [negb orb] in Eht.
       destruct (base_defined (b2n hb)) eqn:Ebd; [|exists HashTypeUndefined; cbn; rewrite Es; auto].
-      cbn [andb] in Eht. destruct (forkid_bit (b2n hb)) eqn:Efb; [|discriminate]. cbn [negb orb] in Eht.
-      exists ForkIdBit. cbn. rewrite Es, Eht. auto. }
+      cbn [andb] in Eht. destruct (forkid_bit (b2n hb)) eqn:Efb; destruct (has_flag c F_FORKID) eqn:Efk; try discriminate.
+      - exists ForkIdBit. cbn. rewrite Es, Efk. auto.
+      - exists NoForkIdBit. cbn. rewrite Es, Efk. auto. }
   destruct (check_sig_enc c sig) eqn:Ese; cbn [option_map].
   2:{ split; [reflexivity|]. intros Hn. exfalso. apply Hn.
       destruct (has_flag c F_DERSIG || has_flag c F_LOWS || has_flag c F_STRICTENC) eqn:Ef.
@@ -426,27 +434,34 @@ Proof.
   rewrite Hup, Hh.
   (* no encoding defect is hard here *)
   assert (Hnoenc : forall d, has_defect pk sig (b2n hb) h d -> hard c d = true ->
-                   d = VerifyFails).
-  { intros d Hd Hh'. destruct d; cbn in Hd, Hh'; try discriminate; try reflexivity; exfalso.
+                   d = VerifyFails \/ d = Unparsable).
+  { intros d Hd Hh'. destruct d; cbn in Hd, Hh'; try discriminate; try (left; reflexivity); try (right; reflexivity); exfalso.
     - unfold hash_type_rule in Eht. rewrite Hh', Hd in Eht. discriminate.
     - unfold hash_type_rule in Eht. apply andb_true_iff in Hh'. destruct Hh' as [H1 H2]. rewrite H1, Hd in Eht.
       destruct (has_flag c F_FORKID); [discriminate|]. rewrite andb_false_r in Eht. discriminate.
+    - unfold hash_type_rule in Eht. apply andb_true_iff in Hh'. destruct Hh' as [H1 H2]. rewrite H1, H2, Hd in Eht.
+      rewrite andb_false_r in Eht. discriminate.
     - apply Hd. apply Hse; [reflexivity|exact Hh'].
     - destruct Hd as [_ Hd]. apply Hd. apply Hse; [reflexivity|exact Hh'].
     - apply Hd. apply Hpk; [reflexivity|exact Hh']. }
-  unfold verdict.
+  assert (Hfull : Nat.ltb 0 (length full) = true).
+  { unfold split_last in Hsl. destruct full as [|f0 fr]; [discriminate|reflexivity]. }
+  unfold verdict, checksig_failed. rewrite Hfull, andb_true_r.
   destruct (orc_parse_pub orc pk) eqn:Epp; cbn [negb andb].
-  2:{ split; [|reflexivity]. intros (d & Hd & Hh'). specialize (Hnoenc d Hd Hh'). subst d. cbn in Hd. destruct Hd as (_ & Hd & _). congruence. }
+  2:{ destruct (has_flag c F_NULLFAIL) eqn:Enf.
+      - split; [reflexivity|]. intros Hn. exfalso. apply Hn. exists Unparsable. cbn. rewrite Enf. auto.
+      - split; [|reflexivity]. intros (d & Hd & Hh'). specialize (Hnoenc d Hd Hh'). destruct Hnoenc as [-> | ->]; cbn in Hh'; congruence. }
   destruct (orc_parse_sig orc (uses_der_parser c) sig) eqn:Eps; cbn [negb andb].
-  2:{ split; [|reflexivity]. intros (d & Hd & Hh'). specialize (Hnoenc d Hd Hh'). subst d. cbn in Hd. destruct Hd as (_ & _ & Hd & _). congruence. }
+  2:{ destruct (has_flag c F_NULLFAIL) eqn:Enf.
+      - split; [reflexivity|]. intros Hn. exfalso. apply Hn. exists Unparsable. cbn. rewrite Enf. auto.
+      - split; [|reflexivity]. intros (d & Hd & Hh'). specialize (Hnoenc d Hd Hh'). destruct Hnoenc as [-> | ->]; cbn in Hh'; congruence. }
   destruct (orc_verify orc pk h sig (uses_der_parser c)) as [[|]|] eqn:Ev; [| |congruence].
-  - cbn [negb andb]. split; [|reflexivity]. intros (d & Hd & Hh'). specialize (Hnoenc d Hd Hh'). subst d.
-    cbn in Hd. destruct Hd as (_ & _ & _ & Hd). congruence.
-  - cbn [negb andb]. destruct (has_flag c F_NULLFAIL) eqn:Enf; cbn [andb].
-    + destruct sig as [|s0 sig']; cbn [length Nat.ltb Nat.leb].
-      * split; [|reflexivity]. intros (d & Hd & Hh'). specialize (Hnoenc d Hd Hh'). subst d. cbn in Hd. destruct Hd as (Hd & _). congruence.
-      * split; [reflexivity|]. intros Hn. exfalso. apply Hn. exists VerifyFails. cbn. rewrite Enf. repeat split; auto. discriminate.
-    + split; [|reflexivity]. intros (d & Hd & Hh'). specialize (Hnoenc d Hd Hh'). subst d. cbn in Hh'. congruence.
+  - split; [|reflexivity]. intros (d & Hd & Hh'). specialize (Hnoenc d Hd Hh'). destruct Hnoenc as [-> | ->]; cbn in Hd.
+    + destruct Hd as (_ & _ & Hd). congruence.
+    + destruct Hd; congruence.
+  - destruct (has_flag c F_NULLFAIL) eqn:Enf.
+    + split; [reflexivity|]. intros Hn. exfalso. apply Hn. exists VerifyFails. cbn. rewrite Enf. auto.
+    + split; [|reflexivity]. intros (d & Hd & Hh'). specialize (Hnoenc d Hd Hh'). destruct Hnoenc as [-> | ->]; cbn in Hh'; congruence.
 Qed.
 End Table.
 
@@ -488,10 +503,11 @@ Proof.
   destruct (negb _); cbn [option_map]; [exact He|].
   destruct (unparse _); cbn [option_map]; [|exact He].
   destruct (sighash_for t i l (b2n hb)); cbn [option_map]; try exact He; try exact Hp.
-  destruct (negb _); cbn [option_map]; [apply Hg|].
-  destruct (negb _); cbn [option_map]; [apply Hg|].
-  destruct (orc_verify _ _ _ _ _) as [ok|]; cbn [option_map]; [|apply kc_err].
-  destruct (_ && _ && _)%bool; cbn [option_map]; [exact He|apply Hg].
+  assert (Hgf : keeps_code s (finish_verify vf (checksig_failed c (set_ds s r) full))).
+  { unfold checksig_failed. destruct (_ && _)%bool; [exact He|apply Hg]. }
+  destruct (negb _); cbn [option_map]; [exact Hgf|].
+  destruct (negb _); cbn [option_map]; [exact Hgf|].
+  destruct (orc_verify _ _ _ _ _) as [[|]|]; cbn [option_map]; [apply Hg|exact Hgf|apply kc_err].
 Qed.
 
 Lemma checkmultisig_keeps_code orc t i c s idx vf :
@@ -600,18 +616,17 @@ Theorem checksig_result orc t i c s idx pk full r sig hb up inp :
   if orc_parse_pub orc pk && orc_parse_sig orc (uses_der_parser c) sig then
     match orc_verify orc pk h sig (uses_der_parser c) with
     | None => None
-    | Some ok => if negb ok && has_flag c F_NULLFAIL && Nat.ltb 0 (length sig) then Some OErr
-                 else Some (push_bool (set_ds s r) ok)
+    | Some true => Some (push_bool (set_ds s r) true)
+    | Some false => Some (checksig_failed c (set_ds s r) full)
     end
-  else Some (push_bool (set_ds s r) false).
+  else Some (checksig_failed c (set_ds s r) full).
 Proof.
   intros Hds Hsl H1 H2 H3 Hup Hlen Hwf Hn Hi Ho h.
   unfold checksig_run. rewrite Hds, Hsl, H1, H2, H3, Hup. cbn [negb].
   rewrite (sighash_for_spec t i up (b2n hb) inp Hwf Hn Hi Ho Hlen (b2n_lt hb)). fold h.
   destruct (orc_parse_pub orc pk); cbn [negb andb option_map finish_verify]; [|reflexivity].
   destruct (orc_parse_sig orc (uses_der_parser c) sig); cbn [negb option_map finish_verify]; [|reflexivity].
-  destruct (orc_verify orc pk h sig (uses_der_parser c)) as [ok|]; [|reflexivity].
-  destruct (negb ok && has_flag c F_NULLFAIL && Nat.ltb 0 (length sig))%bool; reflexivity.
+  destruct (orc_verify orc pk h sig (uses_der_parser c)) as [[|]|]; reflexivity.
 Qed.
 
 (** an empty signature is never an error: false is pushed *)
